@@ -21,7 +21,9 @@ ASSUMPTIONS = ['key universes of <= 8 keys per configuration; values from a 2-el
 
 def bounds(tier):
     return ('quick: cover families %s deep (trees N<=6 @2/2, N=5 @2/3,3/2; leaves N=5; value '
-            'space N=3 with 2 values), all 22 families shallow (N=4); thorough: all 22 deep, N=7'
+            'space N=3 with 2 values), all 22 families shallow (N=4); plus thinning spaces '
+            '(scripted build of 9 keys asc/desc/middle-out @2/2, then BFS over all deletions); '
+            'thorough: all 22 deep, N=7, thinning N=11'
             % ' '.join(F.COVER))
 
 
@@ -66,9 +68,26 @@ def configs(tier):
     return out
 
 
+THIN_N = {'quick': 9, 'thorough': 11}
+
+
+def thin_configs(tier):
+    out = []
+    deep = F.COVER if tier == 'quick' else F.FAMILIES
+    for fam in deep:
+        for impl in F.IMPLS:
+            for kind in F.TREE_KINDS:
+                for order in ('asc', 'desc', 'mid'):
+                    if tier == 'quick' and order == 'mid' and kind == 'TreeSet':
+                        continue
+                    out.append((fam, kind, impl, (2, 2), THIN_N[tier], 'centred', 'thin:' + order,
+                                8 if impl == 'py' else 1))
+    return out
+
+
 def jobs(tier):
     js = []
-    for fam, kind, impl, sizes, n, var, mode, w in configs(tier):
+    for fam, kind, impl, sizes, n, var, mode, w in configs(tier) + thin_configs(tier):
         js.append({'fn': 'job', 'weight': w,
                    'group': '%s/%s' % (impl, 'tree' if kind in F.TREE_KINDS else 'leaf'),
                    'args': dict(fam=fam, kind=kind, impl=impl, sizes=sizes, n=n,
@@ -213,14 +232,21 @@ def probes_monitor(grid):
 def job(fam, kind, impl, sizes, n, variant, mode):
     from .. import ops as O
     from ..explore import Explorer
-    ctx = O.Ctx(fam, kind, impl)
-    keys, grid = F.universe(fam, n, variant)
-    vals = F.values(fam)
-    alpha = alphabet(ctx, keys, grid, vals, mode, n)
-    if sizes:
-        F.set_sizes(fam, *sizes)
-    ex = Explorer(ctx, alpha, sizes=sizes, prop='C01',
-                  base_case=dict(n=n, variant=variant, mode=mode))
+    if mode.startswith('thin:'):
+        from .. import space as S
+        ex = S.explorer(fam, kind, impl, sizes, n, variant, 'C01', check_ops=True,
+                        thin=mode[5:])
+        ex.base_case['mode'] = mode
+        grid = ex.grid
+    else:
+        ctx = O.Ctx(fam, kind, impl)
+        keys, grid = F.universe(fam, n, variant)
+        vals = F.values(fam)
+        alpha = alphabet(ctx, keys, grid, vals, mode, n)
+        if sizes:
+            F.set_sizes(fam, *sizes)
+        ex = Explorer(ctx, alpha, sizes=sizes, prop='C01',
+                      base_case=dict(n=n, variant=variant, mode=mode))
     ex.state_monitors.append(probes_monitor(grid))
     ex.run()
     g = dict(ex.guards)
@@ -229,7 +255,7 @@ def job(fam, kind, impl, sizes, n, variant, mode):
                 evaluations=ex.transitions + probes, distinct=ex.states,
                 exhaustive=ex.exhaustive, guards=g,
                 outcomes={'%s/%s/%s' % k: v for k, v in ex.outcomes.items()},
-                violations=ex.violations, sample=ex.sample, n_max_depth=0)
+                violations=ex.violations + ex.known, sample=ex.sample, n_max_depth=0)
 
 
 def replay(case):
